@@ -95,6 +95,8 @@ GuardPays(e)  == <<e[1], e[2], Map(e[8], Pay), Map(e[9], Pay)>>
 GuardAsks(e)  == <<e[1], e[2], e[5], e[6], e[7]>>
 ConfigSeen(e) == <<e[1], e[2], e[3], e[4]>>
 LifePays(e)   == <<e[1], e[2], Map(e[9], Pay)>>
+SeesStatus(e) == e[10] # <<>>
+StatusSeen(e) == <<e[1], e[2], e[10]>>
 
 \* what a callback saw is compared only where the same callbacks ran (who ran is a projection of its own)
 CheckEvents(n, ev, obsEv) ==
@@ -110,6 +112,12 @@ CheckEvents(n, ev, obsEv) ==
     /\ sameSeers  => Diff(n, "ev.config",         Map(SelectSeq(ev, SeesConfig), ConfigSeen), Map(SelectSeq(obsEv, SeesConfig), ConfigSeen))
     /\ Diff(n, "ev.life",           Map(SelectSeq(ev, IsLife), Who),            Map(SelectSeq(obsEv, IsLife), Who))
     /\ sameLife   => Diff(n, "ev.life.payload",   Map(SelectSeq(ev, IsLife), LifePays),       Map(SelectSeq(obsEv, IsLife), LifePays))
+    \* C14 : a payload that should have been seen differs or is missing (counted for C14 whatever else differs)
+    /\ (sameGuards /\ \E i \in 1 .. Len(ev) : IsGuard(ev[i]) /\ \E j \in 1 .. Len(ev[i][8]) : ev[i][8][j][4] # 0)
+          => Diff(n, "mon.payload.guard", Map(SelectSeq(ev, IsGuard), GuardPays), Map(SelectSeq(obsEv, IsGuard), GuardPays))
+    /\ (sameLife /\ \E i \in 1 .. Len(ev) : IsLife(ev[i]) /\ \E j \in 1 .. Len(ev[i][9]) : ev[i][9][j][4] # 0)
+          => Diff(n, "mon.payload.life", Map(SelectSeq(ev, IsLife), LifePays), Map(SelectSeq(obsEv, IsLife), LifePays))
+    /\ sameSeers  => Diff(n, "ev.status",         Map(SelectSeq(ev, SeesStatus), StatusSeen), Map(SelectSeq(obsEv, SeesStatus), StatusSeen))
     /\ Diff(n, "ev.plan",           Map(SelectSeq(ev, IsPlanCb), Who),          Map(SelectSeq(obsEv, IsPlanCb), Who))
     /\ Diff(n, "ev.report",         Map(SelectSeq(ev, IsReport), Who),          Map(SelectSeq(obsEv, IsReport), Who))
     /\ Diff(n, "ev.all",            Map(ev, Who),                               Map(obsEv, Who))
@@ -284,6 +292,8 @@ CheckRecord(n, pre, m, rec, entered, src) ==
             /\ \A f \in Fields : Diff(n, f, e[f], rec.post[f])
             /\ Diff(n, "prev",         Map(e.prev, NoPay), Map(rec.post.prev, NoPay))
             /\ Diff(n, "prev.payload", Map(e.prev, Pay),   Map(rec.post.prev, Pay))
+            /\ (\E i \in 1 .. Len(e.prev) : e.prev[i][4] # 0)
+                  => Diff(n, "mon.payload.prev", Map(e.prev, Pay), Map(rec.post.prev, Pay))
     /\ CheckEvents(n, m.ev, rec.ev)
     /\ Diff(n, "draws", m.draws, rec.draws)
     /\ Diff(n, "plog", IF Has("PLANS") THEN m.plog ELSE <<>>, rec.plog)
